@@ -42,3 +42,57 @@ package selftest
 //@   ensures len(r) == len(a) + 2
 //@   ensures r[len(a)] == x
 //@   ensures forall k in 0..len(a) :: r[k] == old(a[k])
+//
+// ---- late features (see DESIGN 0.3): ghost closed / \local_, variant, allocation counter,
+// ---- invariants of partial contracts.  The *Bad twins must fail.
+//@ func (closer).Close (c) (err)
+//@   trusted
+//@   assigns c.closed
+//@   ensures c.closed
+//
+//@ func (*opener).open (o) (c, err)
+//@   trusted
+//@   assigns nothing
+//@   ensures err != nil ==> c == nil
+//@   ensures err == nil ==> c != nil
+//
+//@ func closesGood (o, fail) (err)
+//@   requires o != nil
+//@   assigns nothing
+//@   ensures \local_c != nil ==> \local_c.closed
+//
+//@ func closesBad (o, fail) (err)
+//@   requires o != nil
+//@   assigns nothing
+//@   ensures \local_c != nil ==> \local_c.closed
+//
+//@ func depthGood (d) (n)
+//@   requires 0 <= d && d <= 10
+//@   variant 10 - d
+//@   ensures n >= 0
+//
+//@ func depthBad (d, flip) (n)
+//@   requires 0 <= d && d <= 10
+//@   variant 10 - d
+//@   ensures n >= 0
+//
+//@ func (*budget).charge (b, n) (ok)
+//@   requires b != nil
+//@   assigns b.remain
+//@   ensures ok ==> n >= 0 && b.remain == old(b.remain) - n
+//@   ensures !ok ==> b.remain == old(b.remain)
+//
+//@ func allocGood (b, w, h) (p)
+//@   requires b != nil
+//@   assigns b.remain
+//@   ensures nil.allocd - old(nil.allocd) <= old(b.remain) - b.remain
+//
+//@ func allocBad (b, w, h) (p)
+//@   requires b != nil
+//@   assigns b.remain
+//@   ensures nil.allocd - old(nil.allocd) <= old(b.remain) - b.remain
+//
+//@ func partialBad (a) (n)
+//@   claims post/
+//@   ensures n >= 0
+//@   loop 1: invariant n >= 6
